@@ -453,6 +453,54 @@ def r5_wildcard_sinks(repo):
     return obs
 
 
+def r11_no_bottom_for_primitives(repo, RID="C01-R11"):
+    """`null` / TODO() is not a value of a primitive type: wherever a bottom constant is *forced* by something other than
+    the type being a wildcard sink or the class under construction itself, the condition excludes primitive types"""
+    obs = []
+    gen = repo.cls(GEN)
+    for name, f in sorted(gen.methods.items()):
+        g = None
+        for c in calls_in(f.node):
+            if call_name(c) != "generate_expr":
+                continue
+            gb = kwarg(c, "gen_bottom", 4)
+            if gb is None or const_value(gb, 1) is False:
+                continue
+            defs = [gb]
+            if isinstance(gb, ast.Name):
+                if gb.id in f.params:
+                    continue                                    # forwarded from the caller, judged there
+                g = g or cfg_of(f.node)
+                ds = g.defs_reaching(gb.id, c)
+                if not ds or any(v is None for _d, v, _k in ds):
+                    raise AnalysisError("gen_bottom of %s has no visible definition" % f.qualname, rule=RID,
+                                        anchor=f.qualname)
+                defs = [v for _d, v, _k in ds]
+            bad = []
+            for d in defs:
+                disj = d.values if isinstance(d, ast.BoolOp) and isinstance(d.op, ast.Or) else [d]
+                for x in disj:
+                    t = " ".join(src(x).split())
+                    if ".is_wildcard()" in t or ".has_wildcards()" in t:
+                        continue
+                    if isinstance(x, ast.Compare) and len(x.ops) == 1 and isinstance(x.ops[0], ast.Eq) and \
+                            t.count(".name") == 2:
+                        continue                                # the class under construction: never a primitive
+                    conj = x.values if isinstance(x, ast.BoolOp) and isinstance(x.op, ast.And) else [x]
+                    if any(isinstance(k, ast.UnaryOp) and isinstance(k.op, ast.Not) and
+                           " ".join(src(k.operand).split()).endswith(".is_primitive()") for k in conj):
+                        continue
+                    if const_value(x, 1) is False:
+                        continue
+                    bad.append(t[:80])
+            obs.append(Ob(RID, "%s:%s:bottom-never-forced-for-a-primitive-type" % (name, " ".join(src(c.args[0]).split())[:40]),
+                          _w(f, c), not bad,
+                          "gen_bottom may be true through %s: a bottom constant (null / TODO()) would be generated for a "
+                          "primitive type; every alternative must test the wildcard sink, the class under construction, "
+                          "or `not <type>.is_primitive()`" % bad))
+    return obs
+
+
 def r6_inheritance(repo):
     obs = []
     f = _m(repo, "_select_superclass")
@@ -761,6 +809,7 @@ def rules():
         RuleSpec("C01-R8", "call / constructor nodes assembled from the selected candidate", 3, r8_call_assembly),
         RuleSpec("C01-R9", "inherited members are deep copies with substituted types", 9, r9_inherited_members),
         RuleSpec("C01-R10", "declared supertypes of the built-in types lie within the target language's lattice", 60, r10_builtin_lattice),
+        RuleSpec("C01-R11", "a bottom constant is never forced for a primitive type", 5, r11_no_bottom_for_primitives),
     ]
 
 
@@ -879,10 +928,22 @@ def _t_rename(tree):
     V.rename_local(f, "arg", "argument")
 
 
+def _v_bottom_for_primitives(tree):
+    f = V.find_def(tree, "Generator.gen_new")
+    xs = [n for n in ast.walk(f) if isinstance(n, ast.BoolOp) and isinstance(n.op, ast.And) and
+          any(ast.unparse(v) == "not expr_type.is_primitive()" for v in n.values)]
+    if not xs:
+        raise V.SkipVariant("depth cut-off of gen_new")
+    x = xs[0]
+    keep = [v for v in x.values if ast.unparse(v) != "not expr_type.is_primitive()"]
+    V.replace_node(tree, x, keep[0] if len(keep) == 1 else ast.BoolOp(op=ast.And(), values=keep))
+
+
 def variants():
     g = "src/generators/generator.py"
     return [
         V.Variant("gen_variable asks expected.is_assignable(candidate)", g, _v_swap_lambda, {"C01-R1"}),
+        V.Variant("gen_new: depth cut-off forces a bottom constant also for primitive fields", g, _v_bottom_for_primitives, {"C01-R11"}),
         V.Variant("_gen_func_call_ref asks etype.is_assignable(ret_type)", g, _v_swap_ref, {"C01-R1"}),
         V.Variant("conditional type folds to the subtype", g, _v_conditional_subtype, {"C01-R1"}),
         V.Variant("gen_variable drops the compatibility filter", g, _v_drop_filter, {"C01-R2"}),
